@@ -1,4 +1,5 @@
 """C14  OPEN, NOTIFICATION, KEEPALIVE and ROUTE-REFRESH encode and decode faithfully."""
+import copy
 import itertools
 import json
 import random
@@ -108,10 +109,83 @@ def expected_caps(caps):
 
 def plan(tier, seed):
     n = 16
-    return [dict(part=i, nparts=n, seed=seed * 100 + i, n=40000 if tier == 'quick' else 600000, tier=tier) for i in range(n)]
+    return [dict(part=i, nparts=n, seed=seed * 100 + i, n=40000 if tier == 'quick' else 600000, tier=tier) for i in range(n)] + \
+        [dict(kind='session', seed=seed * 100 + 50 + j, n=150 if tier == 'quick' else 1500) for j in range(2 if tier == 'quick' else 8)]
+
+
+SESSION_CFGS = [{}, {'four_bytes_as': False}, {'route_refresh': False, 'cisco_route_refresh': False}, {'enhanced_route_refresh': False},
+                {'afi_safi': ['ipv4', 'ipv6', 'flowspec']}, {'afi_safi': ['ipv6']}, {'add_path': 'ipv4_both'}, {'four_bytes_as': False, 'add_path': 'ipv4_receive'},
+                {'rib': True}]
+
+
+def run_sessions(sh):
+    """What the application is told about the peer's OPEN (handler.open_received, also the log record and the REST state view)
+    is the decoded OPEN: for grammar-built peer OPENs under several configurations, the dictionary handed to the handler equals
+    Open.parse of the same octets decoded on their own - whatever this side has configured or negotiated."""
+    from vlib.world import World
+    from vlib import session as S
+    from yabgp.message.open import Open
+    rng = random.Random(sh['seed'])
+    res = dict(evaluations=0, counters=dict(open_reports_compared=0, own_open_reports_compared=0), maxima={}, sets={}, distinct=[], samples=[], violations=[])
+    V = {}
+    names = S.open_alphabet(rng, sh['n'])
+    for i, nm in enumerate(names):
+        fr, meta = S.MSGS[nm]
+        if meta.get('malformed') or meta.get('unsup_opt') or meta['ver'] != 4 or meta['asn'] != 65002 or meta['hold'] in (1, 2):
+            continue
+        bgp = SESSION_CFGS[i % len(SESSION_CFGS)]
+        w = World(bgp_opts=bgp, time_opts={'idle_hold_time': 5})
+        g = 0
+        while not w.pending() and g < 10 and w.tick():
+            g += 1
+        tr = w.accept()
+        if tr is None:
+            continue
+        w.deliver(fr, tr)
+        res['evaluations'] += 1
+        res['distinct'].append('session|%d|%d' % (sh['seed'], i))
+        got = [e for e in w.handler.ev if e[0] == 'open_received']
+        try:
+            alone = gen.norm(copy.deepcopy(Open().parse(fr[19:])))
+        except Exception as ex:
+            continue        # (the decoder itself is judged by the codec shards)
+        rep = dict(what='session', open=fr.hex(), bgp=bgp)
+        feats = ['cfg:' + ','.join('%s=%s' % kv for kv in sorted(bgp.items()) if kv[0] != 'afi_safi')]
+        if len(got) == 1:
+            res['counters']['open_reports_compared'] += 1
+            told = gen.norm(got[0][2])
+            if told != alone:
+                diff = sorted(k for k in set(told) | set(alone) if told.get(k) != alone.get(k)) if isinstance(told, dict) and isinstance(alone, dict) else ['shape']
+                cd = sorted(k for k in set(told.get('capabilities') or {}) | set(alone.get('capabilities') or {})
+                            if (told.get('capabilities') or {}).get(k) != (alone.get('capabilities') or {}).get(k)) if 'capabilities' in diff else []
+                V.setdefault(('open-report-differs', tuple(feats), tuple(diff + cd)), dict(
+                    kind='open-report-differs', features=feats + ['differs:' + ','.join(diff + cd)],
+                    detail='peer OPEN %s under configuration %s: the handler was told %s, the octets decode to %s' % (
+                        fr.hex()[38:120], bgp, json.dumps(told)[:300], json.dumps(alone)[:300]), replay=rep))
+        elif w.state_direct() in ('OPENCONFIRM', 'ESTABLISHED'):
+            V.setdefault(('open-not-reported', tuple(feats)), dict(kind='open-not-reported', features=feats,
+                         detail='peer OPEN accepted (state %s) with %d open_received reports' % (w.state_direct(), len(got)), replay=rep))
+        # the agent's own OPEN: what the handler is told was sent agrees with the octets on the wire in version, hold time, identifier
+        sent = [e for e in w.handler.ev if e[0] == 'send_open']
+        wrote = [d for _, d in tr.written if len(d) > 19 and d[18] == 1]
+        if sent and wrote:
+            res['counters']['own_open_reports_compared'] += 1
+            try:
+                dec = Open().parse(wrote[0][19:])
+                told = sent[-1][2]
+                bad_ = [k for k in ('version', 'hold_time', 'bgp_id') if told.get(k) != dec.get(k)]
+            except Exception:
+                bad_ = []
+            if bad_:
+                V.setdefault(('own-open-report-differs', tuple(bad_)), dict(kind='own-open-report-differs', features=feats + ['differs:' + ','.join(bad_)],
+                             detail='send_open told %s, the OPEN on the wire decodes to %s' % (json.dumps(gen.norm(told))[:200], json.dumps(gen.norm(dec))[:200]), replay=rep))
+    res['violations'] = list(V.values())
+    return res
 
 
 def run_shard(sh):
+    if sh.get('kind') == 'session':
+        return run_sessions(sh)
     from yabgp.message.open import Open
     from yabgp.message.notification import Notification
     from yabgp.message.keepalive import KeepAlive
@@ -223,12 +297,18 @@ def run_shard(sh):
             data = bytes(rng.randrange(256) for _ in range(rng.choice([0, 0, 1, 2, 21, 64])))
             res['evaluations'] += 1
             res['counters']['notification_cases'] += 1
-            raw = Notification().construct(code, sub, data)
             ref = refenc.notification(code, sub, data)
+            try:
+                raw = Notification().construct(code, sub, data)
+            except Exception as e:
+                raw = ('raised %r' % (e,)).encode()
             if raw != ref:
                 bad('notification-construct', [], 'Notification.construct(%d,%d,%s) = %s, RFC encoding %s' % (code, sub, data.hex(), raw.hex(), ref.hex()),
                     dict(what='notification', code=code, sub=sub, data=data.hex()))
-            back = Notification().parse(ref[19:])
+            try:
+                back = Notification().parse(ref[19:])
+            except Exception as e:
+                back = ('raised', repr(e))
             if tuple(back) != (code, sub, data):
                 bad('notification-parse', [], 'Notification.parse of (%d,%d,%s) returned %r' % (code, sub, data.hex(), back),
                     dict(what='notification', code=code, sub=sub, data=data.hex()))
@@ -239,9 +319,12 @@ def run_shard(sh):
                 for r in (0, 1):
                     res['evaluations'] += 1
                     res['counters']['route_refresh_cases'] += 1
-                    raw = RouteRefresh(afi, safi, r).construct(tc)
                     ref = refenc.route_refresh(afi, safi, r, tc)
-                    back = RouteRefresh().parse(ref[19:])
+                    try:
+                        raw = RouteRefresh(afi, safi, r).construct(tc)
+                        back = RouteRefresh().parse(ref[19:])
+                    except Exception as e:
+                        raw, back = b'', ('raised', repr(e))
                     if raw != ref or tuple(back) != (afi, r, safi):
                         bad('route-refresh', [], 'ROUTE-REFRESH afi %d safi %d res %d type %d: constructed %s (RFC %s), parsed %r' % (
                             afi, safi, r, tc, raw.hex(), ref.hex(), back), dict(what='rr', afi=afi, safi=safi, res=r, tc=tc))
@@ -266,6 +349,8 @@ def floors(m, tier):
     for k, n in (('open_roundtrips', 2000), ('open_reference_decodes', 5000), ('notification_cases', 65536), ('route_refresh_cases', 5000)):
         if c.get(k, 0) < n:
             unmet.append('%s below %d' % (k, n))
+    if c.get('open_reports_compared', 0) < 50:
+        unmet.append('fewer than 50 OPEN reports compared with the decoded octets')
     return unmet
 
 
